@@ -196,3 +196,38 @@ def asgi_chunk_edges(event_sizes, total, chunk_size):
         if pos >= total:
             break
     return edges
+
+
+# ---- get_text model (falcon docs: "decoded using the charset specified in the Content-Type header, or, if omitted, the
+# default charset; the charset must be supported by Python's bytes.decode(); if decoding fails due to invalid data bytes,
+# or the specified encoding itself is unsupported, a MultipartParseError will be raised"; None when not text/plain)
+
+def text_label(ctype, default_charset):
+    """Charset label get_text() has to use for a part with this Content-Type value; None when the part is not text/plain.
+    Only understands the simple values the generators write (no ';' or quotes inside a parameter value)."""
+    if ctype is None:
+        return default_charset
+    head, _, rest = ctype.partition(';')
+    if head.strip() != 'text/plain':
+        return None
+    label = default_charset
+    for piece in rest.split(';'):
+        k, eq, v = piece.partition('=')
+        if eq and k.strip().lower() == 'charset':
+            v = v.strip()
+            if len(v) >= 2 and v[0] == v[-1] == '"':
+                v = v[1:-1]
+            label = v
+    return label
+
+
+def model_text(content, ctype, default_charset='utf-8'):
+    """-> ('none',) | ('ok', str) | ('fail',)"""
+    label = text_label(ctype, default_charset)
+    if label is None:
+        return ('none',)
+    try:
+        t = content.decode(label)
+    except Exception:  # noqa - any failure of bytes.decode() is "cannot be decoded"
+        return ('fail',)
+    return ('ok', t) if isinstance(t, str) else ('fail',)
